@@ -2,6 +2,9 @@ import Cascette.Props.C05
 open Cascette.Props.C05
 #print axioms index_refines_map
 #print axioms index_refines_map_partial
+#print axioms index_refines_map_durable
+#print axioms reload_is_last_write
+#print axioms reload_without_save_witness
 #print axioms iter_agrees_with_lookup
 #print axioms flush_preserves_abs
 #print axioms merge_sorted_distinct
@@ -10,9 +13,14 @@ open Cascette.Props.C05
 #print axioms pack_unpack
 #print axioms pack_masks_beyond_limits
 #print axioms save_load_id
+#print axioms idx_parse_serialise
+#print axioms save_load_id_bytes
+#print axioms idx_layout
+#print axioms idx_empty_file_bytes
 #print axioms zero_key_lost_on_reload
 #print axioms wide_id_on_reload
 #print axioms remove_pinned_lies
 #print axioms remove_fixed_witness
 #print axioms residency_refines_map
+#print axioms scan_keys_no_duplicates
 #print axioms residency_count_counts_span
